@@ -73,8 +73,7 @@ class AbstractDeme(ABC):
 
     @property
     def centroid(self) -> np.ndarray:
-        if self._centroid is None:
-            self._centroid = compute_centroid(self.current_population)
+        self._centroid = compute_centroid(self.current_population)
         return self._centroid
 
     @property
